@@ -682,7 +682,7 @@ def gen_mtl(rng: random.Random, overlap=False, nested=None, bound=2 ** 20):
         trunk_leaves = [t for t in range(p.n()) if p.is_leaf[t] and p.req[t]]
         n_trunk = p.n()
         nt = rng.randint(1, 4)
-        losses, tasks, pool = [], [], []
+        losses, tasks, pool, probes = [], [], [], []
         ok = True
         for ti in range(nt):
             params = []
@@ -727,6 +727,16 @@ def gen_mtl(rng: random.Random, overlap=False, nested=None, bound=2 ** 20):
                     # W_eff = base + offset used multiplicatively: the shared gradient tensor is a fresh,
                     # contiguous, non-view tensor
                     terms.append(p.op("sum", [p.op("mul", [p.op("add", [b1, b2]), f0])]))
+            if rng.random() < 0.3:
+                # a head branch that depends on a task parameter ONLY (not on the features) and holds
+                # saved tensors, e.g. an uncertainty weight: its intermediate tensor is recorded as a
+                # probe for follow-up differentiations (C13)
+                q = p.leaf((2,), [rng.choice([-2, -1, 1, 2]) for _ in range(2)], True)
+                pool.append(q)
+                params.append(q)
+                pp = p.op("square", [q])
+                probes.append((pp, q))
+                terms.append(p.op("sum", [pp]))
             if overlap and trunk_leaves and (ti == 0 or rng.random() < 0.4):
                 # a head reaches the trunk AROUND the features: directly through a trunk leaf, or
                 # through a hidden trunk activation (skip connection) that is not a feature
@@ -747,6 +757,7 @@ def gen_mtl(rng: random.Random, overlap=False, nested=None, bound=2 ** 20):
             tasks.append(params)
         if not ok or p.maxabs() >= bound:
             continue
+        p.probes = probes
         return p, feats, losses, tasks, shared
     raise RuntimeError("no mtl program")
 
@@ -829,6 +840,19 @@ def mk_agg_obj(agg, dtype):
     raise KeyError(agg)
 
 
+def _wrap_iterable(kind):
+    """how a parameter collection is handed to the API: the signatures say Iterable[Tensor]"""
+    if kind == "gen":
+        return lambda l: (x for x in l)
+    if kind == "iter":
+        return iter
+    if kind == "tuple":
+        return tuple
+    if kind == "dictkeys":
+        return lambda l: {x: None for x in l}.keys()
+    return list
+
+
 def impl_call(ts, call, dtype, agg_obj=None):
     """run the real entry point on already-built tensors; returns exception class name or None"""
     from torchjd import backward, mtl_backward
@@ -845,9 +869,10 @@ def impl_call(ts, call, dtype, agg_obj=None):
             feats = [ts[f] for f in call["features"]]
             if call.get("single_feature"):
                 feats = feats[0]
+            wrap = _wrap_iterable(call.get("param_kind", "list"))
             mtl_backward([ts[l] for l in call["losses"]], feats, A,
-                         tasks_params=None if call["tasks"] is None else [[ts[q] for q in ps] for ps in call["tasks"]],
-                         shared_params=None if call["shared"] is None else [ts[p_] for p_ in call["shared"]],
+                         tasks_params=None if call["tasks"] is None else [wrap([ts[q] for q in ps]) for ps in call["tasks"]],
+                         shared_params=None if call["shared"] is None else wrap([ts[p_] for p_ in call["shared"]]),
                          retain_graph=call["retain"], parallel_chunk_size=call["k"])
     except Exception as e:  # noqa: BLE001
         return type(e).__name__
